@@ -110,8 +110,10 @@ impl TlsClientHelloReader {
             Ok(Some(signature)) => {
                 debug!("Successfully parsed TLS ClientHello from reassembled buffer");
                 self.signature = Some(signature.clone());
-                // Clear buffer after successful parse to prepare for next ClientHello
+                // Clear buffer after successful parse to prepare for next ClientHello; a finished
+                // reader may be kept for a while, so give the reassembly space back
                 self.buffer.drain(..needed);
+                self.buffer.shrink_to_fit();
                 Ok(Some(signature))
             }
             Ok(None) => {
